@@ -175,6 +175,11 @@ def main():
             oracle("dict-len-contains", lambda d: d[ks[-1]] if (len(d) == len(ks) and ks[-1] in d) else 0.0, x)
         else:
             n = len(x)
+            for st in (-1, -2, 2, 3):
+                a_ = rng.choice([None] + list(range(-n - 1, n + 2)))
+                b_ = rng.choice([None] + list(range(-n - 1, n + 2)))
+                oracle("stepped-slice", lambda s, a_=a_, b_=b_, st=st: s[a_:b_:st], x)
+            oracle("reversed", lambda s: s[::-1], x)
             oracle("iterate-unpack", lambda s: atuple([e for e in s][::-1]), x)
             oracle("tuple-constructor", lambda s: atuple([s[j] for j in range(n)]), x)
             oracle("list-constructor", lambda s: alist([s[-1 - j] for j in range(n)]), x)
